@@ -54,3 +54,10 @@ def contract_for(dpath):
 SCALED_RESULTS = {
     "minimal_lexical::bellerophon::normalize": {"consumer": "minimal_lexical::bellerophon::error_is_accurate", "arg": 0},
 }
+
+
+# Functions in which a `wrapping_add` / `wrapping_sub` is used as plain arithmetic on values that are meant not to wrap (the comparison
+# that follows is only meaningful without a wrap).  E4 obligation `wrap-free` (C11): the operation provably does not wrap there.
+NOWRAP_CALLERS = {
+    "minimal_lexical::bellerophon::error_is_accurate": "halfway -/+ errors are compared with the truncated bits; a wrapped bound accepts every value",
+}
